@@ -215,6 +215,7 @@ static void exec_one(void)
 	env_init();
 	sched_init();
 	sched_on_quiescence = quiescent;
+	sched_fault_eintr = mc_arg_int("eintr", 0);
 	sched_max_points = mc_arg_int("maxpoints", 3000);
 	np = parse_list(mc_arg("progs", "0-9"), pl, 16);
 	nm = parse_list(mc_arg("methods", "0-3"), ml, 4);
